@@ -152,3 +152,23 @@ reg("C02", harness="c02_inflate", level="exploration", deadline=(400, 2400), ext
     runs={"quick": [dict(flavour="sim")], "thorough": [dict(flavour="sim"), dict(flavour="h8k"), dict(flavour="lht")]},
     rule="case = (stream, wrapper mode, header variant, junk length, cpu level, api); distinct_nontrivial = distinct stream bodies (hash); "
          "evaluations = decode calls compared with the reference.")
+
+
+ENGINES.append({"name": "explore", "path": "engine/explore.h", "serves_properties": ["C07", "C10", "C14", "C06", "C11", "C19"],
+                "kind_free_text": "explicit-state DFS over the real isal_inflate/isal_deflate/header-reader transition function: memcpy snapshots of the context image, 128-bit keys over the normalised image, progress check from every state"})
+ENGINES.append({"name": "simcpu", "path": "engine/simcpu.asm", "serves_properties": ["C16", "C01", "C02", "C03", "C04", "C08", "C13", "C20"],
+                "kind_free_text": "cpuid/xgetbv inside the real resolvers answered by the harness (nasm pre-include); all dependency-closed configurations enumerated"})
+
+reg("C07", harness="c07_stream", level="model_checking", deadline=(500, 2400), extra_src=["ref/ref_inflate.c"], engine="explore",
+    technique="explicit-state model checking of the real streaming codecs: DFS over all call histories from chunk/flush alphabets with state-image deduplication, plus single-split closure and uniform schedules",
+    level_text="The state graph of the REAL isal_inflate (126 (in,out) choices per call) and isal_deflate (420 choices: in x out x flush x eos "
+               "timing) is explored exhaustively with deduplication on the byte image of the context for short streams/inputs x levels x wrappers "
+               "x CPU levels; on every transition bookkeeping, bytes written and output prefix are checked, at every terminal the result is "
+               "compared with the one-shot/reference result, and from EVERY reachable state generous calls must terminate correctly (progress). "
+               "Longer streams (up to >64 KiB output) are covered by the closure of all single split points and all uniform chunk-size pairs.",
+    level_note="chunk sizes outside the alphabets and histories on long streams beyond single-split/uniform are not covered; flush budget <=1 (2) "
+               "and <=2 consecutive empty calls bound the deflate graph; a graph that hits its state cap is reported (exhaustive:false).",
+    runs=[dict(flavour="sim", part="inflate"), dict(flavour="sim", part="deflate")],
+    rule="state = normalised image of inflate_state / isal_zstream+level_buf + cursor; transition = one real API call under one environment "
+         "choice; traces_validated_against_impl = root-to-terminal paths (all are implementation executions); distinct_nontrivial = graphs and "
+         "stream/cpu combinations completed.")
